@@ -168,6 +168,13 @@ M("c04.toy.dsa.verify.modq", "C04", DSAPY, "v = (pow(g, u1, p) * pow(y, u2, p) %
 M("c04.toy.dsa.sign.r", "C04", DSAPY, "r = pow(g, k, p) % q  # r = (g**k mod p) mod q", "r = pow(g, k, q) % p", "K-pw|dsa.toy.sign")
 M("c04.twin.toy.ecdsa.verify", "C04", ECCPY, "return (point1 + point2).x % order == rs[0]", "v = (point2 + point1).x % order\n        return v == rs[0]", twin=True)
 
+KDFPY = "lib/Crypto/Protocol/KDF.py"
+M("c12.bcrypt.hash24", "C12", KDFPY, "hash_enc = _bcrypt_encode(ctext[:-1])", "hash_enc = _bcrypt_encode(ctext)", "K-pw|bcrypt.assembly")
+M("c12.bcrypt.nul72", "C12", KDFPY, "    if len(password) < 72:\n        password += b\"\\x00\"", "    if len(password) <= 72:\n        password += b\"\\x00\"", "")
+M("c12.bcrypt.enc.shift", "C12", KDFPY, "idx = int(g, 2) << (6 - len(g))", "idx = int(g, 2)", "K-pw|bcrypt.radix64")
+M("c12.bcrypt.dec.mod4", "C12", KDFPY, "    elif modulo4 == 2:\n        bits = bits[:-4]", "    elif modulo4 == 2:\n        bits = bits[:-2]", "K-pw|bcrypt.radix64")
+M("c12.bcrypt.rounds63", "C12", KDFPY, "    for _ in range(64):\n        ctext = cipher.encrypt(ctext)", "    for _ in range(63):\n        ctext = cipher.encrypt(ctext)", "K-pw|bcrypt.assembly")
+M("c12.bcrypt.cost.zfill", "C12", KDFPY, "cost_enc = b\"$\" + bstr(str(cost).zfill(2))", "cost_enc = b\"$\" + bstr(str(cost))", "K-pw|bcrypt.assembly")
 PRIMPY = "lib/Crypto/Math/Primality.py"
 M("c14.prim.mr.minus_one", "C14", PRIMPY, "        if z in (one, minus_one):\n            continue", "        if z == one:\n            continue", "K-pw|primality.miller-rabin")
 M("c14.prim.mr.loop", "C14", PRIMPY, "            if z == one:\n                return COMPOSITE\n        else:\n            return COMPOSITE", "            if z == one:\n                return COMPOSITE", "K-pw|primality")
